@@ -7,7 +7,7 @@ found through an index is assumed to satisfy the index invariant (it carries the
 found under); that the invariant is re-established for every binding is what the lemmas check.
 """
 from pyvc.dsl import *   # noqa
-from cloudsync.sync.state import TRASHED, MISSING, EXISTS, UNKNOWN
+from cloudsync.sync.state import TRASHED, MISSING, EXISTS, UNKNOWN, LIKELY_TRASHED
 from cloudsync.types import IgnoreReason
 
 REAL_INDEX = ["cloudsync.sync.state:SyncState._change_oid", "cloudsync.sync.state:SyncState._change_path"]
@@ -26,7 +26,10 @@ def oid_assignment_maintains_index_and_pending_set(w: World, oid: opt_str):
     assume(oid is None or len(oid) > 0)
     assume(in_changeset(state, ent) == has_pending_change(ent))
     other_flag_without_oid = truthy(ent[1 - side].changed) and ent[1 - side].oid is None
+    prior = state.lookup_oid(side, oid) if oid is not None else None
     ent[side].oid = oid
+    if prior is not None and prior is not ent:
+        check(prior[side].oid is None, "the previous owner of the id loses it (at most one owner per side)")
     check(ent[side].oid == oid, "the oid is recorded")
     if oid is not None:
         check(state.lookup_oid(side, oid) is ent, "the oid slot leads to the entry")
@@ -93,3 +96,28 @@ def finished_contract(w: World):
         check((other[0].changed, other[1].changed, other[0].oid, other[1].oid, other[0].path, other[1].path, other.ignored) == o_fields,
               "nothing else of another entry changes")
         check(in_changeset(state, other), "another entry stays in the pending set")
+
+
+@lemma(props=["C11", "C02", "C04"], configs="sides")
+def entry_predicates_contract(w: World):
+    """the classification predicates every dispatch lemma relies on, stated independently of their bodies: what counts as
+    needing sync, a creation, a deletion, a path change, discarded / irrelevant / conflicted, trash"""
+    e = w.entry("e")
+    side = w.changed
+    other = w.synced
+    s, o = e[side], e[other]
+    differ = truthy(e.paths_differ(side))
+    ns = s.force_sync or (truthy(s.changed) and truthy(s.oid) and
+                          (s.hash != s.sync_hash or differ or s.exists in (TRASHED, MISSING, LIKELY_TRASHED)))
+    check(truthy(s.needs_sync()) == ns,
+          "needs sync: forced, or flagged with an id and (content differs from last sync, or path differs, or it is gone)")
+    gone_other = (not truthy(o.oid)) or o.exists in (TRASHED, MISSING) or truthy(o.corrupt_gone)
+    check(truthy(e.is_creation(side)) == (truthy(s.path) and s.exists == EXISTS and ns and gone_other),
+          "a creation: a live, named object that needs sync and whose peer has no id, is tombstoned or is corrupt-gone")
+    check(truthy(e.is_deletion(side)) == (o.exists == EXISTS and s.exists in (TRASHED, MISSING) and truthy(s.changed)),
+          "a deletion: flagged, gone on this side, alive on the other")
+    check(truthy(e.is_path_change(side)) == (truthy(s.sync_path) and differ), "a path change: synced before and the path differs now")
+    check(e.is_discarded == (e.ignored in (IgnoreReason.DISCARDED, IgnoreReason.IRRELEVANT)), "discarded covers irrelevant")
+    check(e.is_irrelevant == (e.ignored == IgnoreReason.IRRELEVANT) and e.is_conflicted == (e.ignored == IgnoreReason.CONFLICT),
+          "irrelevant / conflicted are exactly those reasons")
+    check(e.is_trash == (e[0].oid is None and e[1].oid is None), "trash: no id on either side")
